@@ -1,2 +1,961 @@
-// Package c20: correspondence harness for property C20 (stub — registers nothing yet).
+// Package c20: configuration lookups return the most specific existing entry.
+//
+// Two kinds of input (S-expressions):
+//
+//	(parse "s")
+//	    runs componentcfg.NewQuery / NewEntriesQuery / NewQueryParameters on s.
+//	    obs: ((full F) (entries E) (params P))
+//	      F := (ok comp rtNum role entry raw path absraw valid) | (err bad_key valid) | (err other valid)
+//	      E := (ok comp rtNum role valid) | (err bad_key valid)
+//	      P := (ok process (k v)...) | (err valid)        -- (k v) sorted by key; valid = IsStringValid…(s) on the UNtrimmed s
+//
+//	(lookup (comp rtNum role entry) ((key kind content)...) ((k v)...))
+//	    builds a YAML file whose tree holds the listed entries (key = full "/"-separated key from the root,
+//	    kind = val | dir; a dir is an empty map), opens it with the real cfgbackend.NewSource("file://…"),
+//	    wraps that source in a recorder, and runs a fresh local.Service over it.
+//	    obs: ((probes "key"...) (resolved R) (get G) (getq G) (proc P))
+//	      probes   the keys ResolveComponentQuery asked Exists for, in order
+//	      R := (ok comp rtNum role entry raw) | (err unresolved) | (err other)
+//	      get      GetComponentConfiguration(resolved)   (- when nothing resolved)
+//	      getq     GetComponentConfiguration(query)      (no fallback)
+//	      proc     GetAndProcessComponentConfiguration(resolved, vars) on ANOTHER fresh service (- when nothing resolved)
+//	      G, P := (ok "payload") | (err nopayload|notstring|badkey|load|syntax|badident|exec|other) | -
 package c20
+
+import (
+	"fmt"
+	"go/ast"
+	"go/parser"
+	"go/token"
+	"os"
+	"path/filepath"
+	"sort"
+	"strconv"
+	"strings"
+	"sync/atomic"
+
+	"github.com/AliceO2Group/Control/apricot/local"
+	apricotpb "github.com/AliceO2Group/Control/apricot/protos"
+	"github.com/AliceO2Group/Control/configuration/cfgbackend"
+	"github.com/AliceO2Group/Control/configuration/componentcfg"
+	"github.com/AliceO2Group/Control/configuration/template"
+	"gopkg.in/yaml.v3"
+
+	"verifharness/fw"
+	"verifharness/rng"
+	"verifharness/sx"
+)
+
+// ---- recording backend -------------------------------------------------------------
+
+type recorder struct {
+	cfgbackend.Source
+	probes []string
+	// when answer != nil the recorder answers Exists itself (used by the tabulation only)
+	answer func(key string) bool
+}
+
+func (r *recorder) Exists(key string) (bool, error) {
+	r.probes = append(r.probes, key)
+	if r.answer != nil {
+		return r.answer(key), nil
+	}
+	return r.Source.Exists(key)
+}
+
+// ---- implementation runs -----------------------------------------------------------
+
+func errClass(err error) string {
+	m := err.Error()
+	switch {
+	case strings.Contains(m, "where: fromfile"):
+		return "load"
+	case strings.Contains(m, "where: checkForValidIdentifiers"):
+		return "badident"
+	case strings.Contains(m, "where: parser"), strings.Contains(m, "where: lexer"):
+		return "syntax"
+	case strings.Contains(m, "where: execution"):
+		return "exec"
+	case strings.Contains(m, "no payload at configuration path"):
+		return "nopayload"
+	case strings.Contains(m, "string was expected"):
+		return "notstring"
+	case strings.Contains(m, "bad component configuration key format"):
+		return "badkey"
+	case strings.Contains(m, "could not resolve configuration path"):
+		return "unresolved"
+	}
+	return "other"
+}
+
+func runParse(s string) string {
+	full := sx.L(sx.A("full"))
+	if q, err := componentcfg.NewQuery(s); err == nil {
+		full.Add(sx.L(sx.A("ok"), sx.A(q.Component), sx.I(int(q.RunType)), sx.A(q.RoleName), sx.A(q.EntryKey),
+			sx.A(q.Raw()), sx.A(q.Path()), sx.A(q.AbsoluteRaw()), sx.B(componentcfg.IsStringValidQueryPath(s))))
+	} else if err == componentcfg.E_BAD_KEY {
+		full.Add(sx.L(sx.A("err"), sx.A("bad_key"), sx.B(componentcfg.IsStringValidQueryPath(s))))
+	} else {
+		full.Add(sx.L(sx.A("err"), sx.A("other"), sx.B(componentcfg.IsStringValidQueryPath(s))))
+	}
+	ent := sx.L(sx.A("entries"))
+	if q, err := componentcfg.NewEntriesQuery(s); err == nil {
+		ent.Add(sx.L(sx.A("ok"), sx.A(q.Component), sx.I(int(q.RunType)), sx.A(q.RoleName), sx.B(componentcfg.IsStringValidEntriesQueryPath(s))))
+	} else {
+		ent.Add(sx.L(sx.A("err"), sx.A("bad_key"), sx.B(componentcfg.IsStringValidEntriesQueryPath(s))))
+	}
+	par := sx.L(sx.A("params"))
+	if p, err := componentcfg.NewQueryParameters(s); err == nil {
+		r := sx.L(sx.A("ok"), sx.B(p.ProcessTemplates))
+		var ks []string
+		for k := range p.VarStack {
+			ks = append(ks, k)
+		}
+		sort.Strings(ks)
+		for _, k := range ks {
+			r.Add(sx.L(sx.A(k), sx.A(p.VarStack[k])))
+		}
+		par.Add(r)
+	} else {
+		par.Add(sx.L(sx.A("err"), sx.B(componentcfg.IsStringValidQueryParameters(s))))
+	}
+	return sx.L(full, ent, par).String()
+}
+
+var fileCtr uint64
+var workDir = filepath.Join(os.TempDir(), "verif-c20")
+
+func buildYaml(entries *sx.Node) ([]byte, error) {
+	root := map[string]interface{}{}
+	for _, e := range entries.List {
+		segs := strings.Split(e.At(0).Str(), "/")
+		cur := root
+		for i, s := range segs {
+			if i == len(segs)-1 {
+				if _, dup := cur[s]; dup {
+					return nil, fmt.Errorf("entry %q collides with another entry", e.At(0).Str())
+				}
+				if e.At(1).Str() == "dir" {
+					cur[s] = map[string]interface{}{}
+				} else {
+					cur[s] = e.At(2).Str()
+				}
+				break
+			}
+			nxt, ok := cur[s]
+			if !ok {
+				m := map[string]interface{}{}
+				cur[s] = m
+				cur = m
+				continue
+			}
+			m, isMap := nxt.(map[string]interface{})
+			if !isMap {
+				return nil, fmt.Errorf("entry %q passes through a value", e.At(0).Str())
+			}
+			cur = m
+		}
+	}
+	return yaml.Marshal(root)
+}
+
+func payloadObs(tag string, payload string, err error) *sx.Node {
+	if err != nil {
+		return sx.L(sx.A(tag), sx.L(sx.A("err"), sx.A(errClass(err))))
+	}
+	return sx.L(sx.A(tag), sx.L(sx.A("ok"), sx.A(payload)))
+}
+
+func runLookup(in *sx.Node) (string, error) {
+	qn := in.At(1)
+	query := &componentcfg.Query{Component: qn.At(0).Str(), RunType: apricotpb.RunType(qn.At(1).Int()),
+		RoleName: qn.At(2).Str(), EntryKey: qn.At(3).Str()}
+	data, err := buildYaml(in.At(2))
+	if err != nil {
+		return "", err
+	}
+	if err := os.MkdirAll(workDir, 0o755); err != nil {
+		return "", err
+	}
+	fn := filepath.Join(workDir, fmt.Sprintf("c20-%d-%d.yaml", os.Getpid(), atomic.AddUint64(&fileCtr, 1)))
+	if err := os.WriteFile(fn, data, 0o644); err != nil {
+		return "", err
+	}
+	defer os.Remove(fn)
+	src, err := cfgbackend.NewSource("file://" + fn)
+	if err != nil {
+		return "", fmt.Errorf("NewSource: %v", err)
+	}
+	rec := &recorder{Source: src}
+	svc := local.VerifC20NewServiceWithSource(rec)
+
+	vars := map[string]string{}
+	for _, kv := range in.At(3).List {
+		vars[kv.At(0).Str()] = kv.At(1).Str()
+	}
+
+	resolved, rerr := svc.ResolveComponentQuery(query)
+	probes := sx.L(sx.A("probes"))
+	for _, p := range rec.probes {
+		probes.Add(sx.A(p))
+	}
+	obs := sx.L(probes)
+	if rerr != nil {
+		c := errClass(rerr)
+		if c != "unresolved" {
+			c = "other"
+		}
+		obs.Add(sx.L(sx.A("resolved"), sx.L(sx.A("err"), sx.A(c))))
+		obs.Add(sx.L(sx.A("get"), sx.A("-")))
+	} else {
+		obs.Add(sx.L(sx.A("resolved"), sx.L(sx.A("ok"), sx.A(resolved.Component), sx.I(int(resolved.RunType)),
+			sx.A(resolved.RoleName), sx.A(resolved.EntryKey), sx.A(resolved.Raw()))))
+		p, e := svc.GetComponentConfiguration(resolved)
+		obs.Add(payloadObs("get", p, e))
+	}
+	p, e := svc.GetComponentConfiguration(query)
+	obs.Add(payloadObs("getq", p, e))
+	if rerr != nil {
+		obs.Add(sx.L(sx.A("proc"), sx.A("-")))
+	} else {
+		// the template cache is per service: a fresh one, so the payload is a function of (tree, query, vars) only
+		svc2 := local.VerifC20NewServiceWithSource(src)
+		p, e := svc2.GetAndProcessComponentConfiguration(resolved, vars)
+		if e != nil {
+			p = ""
+		}
+		obs.Add(payloadObs("proc", p, e))
+	}
+	return obs.String(), nil
+}
+
+func runImpl(input string) (string, error) {
+	in, err := sx.Parse(input)
+	if err != nil {
+		return "", err
+	}
+	switch in.At(0).Str() {
+	case "parse":
+		return runParse(in.At(1).Str()), nil
+	case "lookup":
+		return runLookup(in)
+	}
+	return "", fmt.Errorf("unknown case kind %q", in.At(0).Str())
+}
+
+// ---- generators --------------------------------------------------------------------
+
+const (
+	lower  = "abcdefghijklmnopqrstuvwxyz"
+	upper  = "ABCDEFGHIJKLMNOPQRSTUVWXYZ"
+	digits = "0123456789"
+)
+
+var runTypeNames []string // sorted by number
+var runTypeNums []int
+
+func init() {
+	for n := range apricotpb.RunType_name {
+		runTypeNums = append(runTypeNums, int(n))
+	}
+	sort.Ints(runTypeNums)
+	for _, n := range runTypeNums {
+		runTypeNames = append(runTypeNames, apricotpb.RunType_name[int32(n)])
+	}
+}
+
+func randFrom(r *rng.R, alphabet string, lo, hi int) string {
+	n := r.Range(lo, hi)
+	var b strings.Builder
+	rs := []rune(alphabet)
+	for i := 0; i < n; i++ {
+		b.WriteRune(rs[r.N(len(rs))])
+	}
+	return b.String()
+}
+
+func genComponent(r *rng.R) string {
+	if r.P(1, 3) {
+		return rng.Pick(r, []string{"qc", "readout", "readoutcard", "dpl", "stfb", "stfs", "tpc-raw", "its_noise", "QC", "mch-qcmn-epn-full-track-matching"})
+	}
+	return randFrom(r, lower+upper+digits+"-_", 1, 8)
+}
+func genRole(r *rng.R) string {
+	if r.P(1, 4) {
+		return "any"
+	}
+	if r.P(1, 3) {
+		return rng.Pick(r, []string{"flp001", "alio2-cr1-flp146", "epn-12", "ANY", "Any", "role1", "any-role", "anyx"})
+	}
+	return randFrom(r, lower+upper+digits+"-_", 1, 8)
+}
+func genEntry(r *rng.R) string {
+	if r.P(1, 3) {
+		return rng.Pick(r, []string{"entry", "tpc-full-qcmn", "sub/entry12", "a/b/c", "any", "ANY", "cfg", "x_1"})
+	}
+	s := randFrom(r, lower+upper+digits+"-_", 1, 6)
+	for r.P(1, 4) {
+		s += "/" + randFrom(r, lower+upper+digits+"-_", 1, 5)
+	}
+	return s
+}
+func genRunTypeName(r *rng.R) string { return rng.Pick(r, runTypeNames) }
+
+var spaces = []string{" ", "\t", "\n", "\r", "\v", "\f", "\u0085", "\u00a0", "\u2003", "\u3000", "\u1680", "\u2028"}
+var oddChars = []string{".", ":", "=", "&", "+", "%", "\u00e9", "\u00df", "\u200b", "\ufeff", "[", "]", "\"", ",", "{", "}", "~", "@", "`", "^", "\\", "'", "(", ")", "*", "?", "|", "$", "#", "!", ";", "<", ">", "\x7f"}
+
+func genValidPath(r *rng.R) string {
+	return genComponent(r) + "/" + genRunTypeName(r) + "/" + genRole(r) + "/" + genEntry(r)
+}
+
+func mutate(r *rng.R, s string) (string, string) {
+	rs := []rune(s)
+	switch r.N(12) {
+	case 0: // drop a char
+		if len(rs) > 0 {
+			i := r.N(len(rs))
+			return string(rs[:i]) + string(rs[i+1:]), "mut-drop"
+		}
+	case 1: // insert an odd char
+		i := r.N(len(rs) + 1)
+		return string(rs[:i]) + rng.Pick(r, oddChars) + string(rs[i:]), "mut-oddchar"
+	case 2: // insert a space inside
+		i := r.N(len(rs) + 1)
+		return string(rs[:i]) + rng.Pick(r, spaces) + string(rs[i:]), "mut-innerspace"
+	case 3: // lower-case the run type
+		parts := strings.Split(s, "/")
+		if len(parts) > 1 {
+			parts[1] = strings.ToLower(parts[1])
+			return strings.Join(parts, "/"), "mut-lower-runtype"
+		}
+	case 4: // unknown run type of the right shape
+		parts := strings.Split(s, "/")
+		if len(parts) > 1 {
+			parts[1] = rng.Pick(r, []string{"PHYSIC", "PHYSICS2", "ANY_", "X", "CALIBRATION_", "300", "0", "_", "-", "NULLL", "TECHNICAL-RUN"})
+			return strings.Join(parts, "/"), "mut-unknown-runtype"
+		}
+	case 5: // drop a segment
+		parts := strings.Split(s, "/")
+		i := r.N(len(parts))
+		parts = append(parts[:i:i], parts[i+1:]...)
+		return strings.Join(parts, "/"), "mut-drop-segment"
+	case 6: // double a slash
+		i := strings.Index(s, "/")
+		if i >= 0 {
+			k := r.N(strings.Count(s, "/"))
+			idx := 0
+			for j := 0; j < len(s); j++ {
+				if s[j] == '/' {
+					if idx == k {
+						return s[:j] + "/" + s[j:], "mut-double-slash"
+					}
+					idx++
+				}
+			}
+		}
+	case 7:
+		return "/" + s, "mut-leading-slash"
+	case 8:
+		return s + "/", "mut-trailing-slash"
+	case 9: // newline then a second path (anchoring)
+		return s + "\n" + genValidPath(r), "mut-multiline"
+	case 10: // absolute prefix
+		return "o2/components/" + s, "mut-absolute"
+	case 11:
+		return strings.Replace(s, "/", rng.Pick(r, []string{"\\", "//", " / ", "|"}), 1), "mut-separator"
+	}
+	return s + "?", "mut-oddchar"
+}
+
+func genParams(r *rng.R) string {
+	n := r.Range(1, 4)
+	var parts []string
+	for i := 0; i < n; i++ {
+		k := randFrom(r, lower+upper+digits+"-_", 1, 6)
+		if r.P(1, 4) {
+			k = "process"
+		}
+		v := randFrom(r, lower+upper+digits+"-_,\"[]", 1, 8)
+		if k == "process" && r.P(4, 5) {
+			v = rng.Pick(r, []string{"true", "false", "1", "0", "t", "F", "TRUE", "True", "False", "yes", "tRue", "T"})
+		}
+		parts = append(parts, k+"="+v)
+	}
+	if r.P(1, 6) && len(parts) > 1 {
+		parts[len(parts)-1] = strings.SplitN(parts[0], "=", 2)[0] + "=dup"
+	}
+	return strings.Join(parts, "&")
+}
+
+func genParseCase(r *rng.R) fw.Case {
+	var s string
+	tags := []string{"parse"}
+	switch r.N(10) {
+	case 0, 1, 2:
+		s = genValidPath(r)
+		tags = append(tags, "parse:valid-path")
+	case 3:
+		s = genComponent(r) + "/" + genRunTypeName(r) + "/" + genRole(r)
+		tags = append(tags, "parse:valid-entries-path")
+	case 4:
+		s = genParams(r)
+		tags = append(tags, "parse:params")
+		if r.P(1, 3) {
+			var t string
+			s, t = mutate(r, s)
+			tags = append(tags, "parse:"+t)
+		}
+	case 5: // random soup over the interesting alphabet
+		s = randFrom(r, "aZ0-_/ /AB&=\",[]\n", 0, 12)
+		tags = append(tags, "parse:soup")
+	default:
+		var t string
+		s, t = mutate(r, genValidPath(r))
+		if r.P(1, 4) {
+			s, _ = mutate(r, s)
+		}
+		tags = append(tags, "parse:"+t)
+	}
+	if r.P(1, 3) { // surrounding blanks
+		pre, post := "", ""
+		for r.P(1, 2) {
+			pre += rng.Pick(r, spaces)
+		}
+		for r.P(1, 2) {
+			post += rng.Pick(r, spaces)
+		}
+		if pre+post != "" {
+			s = pre + s + post
+			tags = append(tags, "parse:surrounding-blanks")
+		}
+	}
+	return fw.Case{Input: sx.L(sx.A("parse"), sx.A(s)).String(), Tags: tags}
+}
+
+// ---- lookup cases ------------------------------------------------------------------
+
+type shape struct {
+	comp  string
+	rt    int
+	role  string
+	entry string
+}
+
+var shapes = []shape{
+	{"qc", 1, "flp001", "tpc-raw"},                        // the ordinary case: four distinct candidates
+	{"readout-card", 6, "any", "cfg"},                     // role is already the fallback: exact≡rt/any, ANY/role≡ANY/any
+	{"dpl_x", 300, "epn-12", "sub/dir/entry"},             // run type is already ANY, nested entry
+	{"c", 300, "any", "e"},                                // all four coincide
+	{"Comp9", 0, "ANY", "any"},                            // NULL run type, role "ANY" (not the fallback), entry called "any"
+	{"a-b_c", 2, "r", "e/"},                               // entry with trailing slash (the backend trims it)
+	{"x", 14, "anyrole", "d//e"},                          // empty path segment inside the entry
+	{"mch-qcmn-epn-full-track-matching", 13, "alio2-cr1-flp146", "ANY/any"}, // entry that spells the fallback names
+}
+
+func candPaths(s shape) [4]string {
+	rtn := apricotpb.RunType_name[int32(s.rt)]
+	return [4]string{
+		"o2/components/" + s.comp + "/" + rtn + "/" + s.role + "/" + s.entry,
+		"o2/components/" + s.comp + "/ANY/" + s.role + "/" + s.entry,
+		"o2/components/" + s.comp + "/" + rtn + "/any/" + s.entry,
+		"o2/components/" + s.comp + "/ANY/any/" + s.entry,
+	}
+}
+
+var contentVariants = []string{
+	"plain payload, no template",
+	"{\"host\":\"{{ host }}\",\"n\":{{n}},\"missing\":\"{{ nothere }}\",\"obj\":{\"a\":{\"b\":1}}}",
+}
+
+var varVariants = [][][2]string{
+	{{"host", "flp<1>&\"x\"'"}, {"n", "42"}, {"unused", "zzz"}},
+}
+
+func lookupCase(s shape, kinds []int, distinct []string, content string, vars [][2]string, tags []string) fw.Case {
+	ents := sx.L()
+	for i, p := range distinct {
+		key := strings.TrimRight(p, "/")
+		switch kinds[i] {
+		case 1:
+			ents.Add(sx.L(sx.A(key), sx.A("val"), sx.A(fmt.Sprintf("cand%d:", i)+content)))
+		case 2:
+			ents.Add(sx.L(sx.A(key), sx.A("dir"), sx.A("")))
+		}
+	}
+	// distractors: same tree, other component / run type / role / entry, and a key outside o2/components
+	rtn := apricotpb.RunType_name[int32(s.rt)]
+	other := "PHYSICS"
+	if rtn == "PHYSICS" {
+		other = "COSMICS"
+	}
+	have := map[string]bool{}
+	for _, e := range ents.List {
+		have[e.At(0).Str()] = true
+	}
+	for _, d := range [][2]string{
+		{"o2/components/" + s.comp + "X/" + rtn + "/" + s.role + "/distract", "other component"},
+		{"o2/components/" + s.comp + "/" + other + "/other-role/distract", "other run type"},
+		{"o2/components/" + s.comp + "/" + rtn + "/" + s.role + "/zz-distract", "other entry"},
+		{"o2/components/" + s.comp + "/ANY/any/zz-distract", "other entry"},
+		{"o2/runtime/aliecs/vars/x", "1"},
+	} {
+		if !have[d[0]] {
+			have[d[0]] = true
+			ents.Add(sx.L(sx.A(d[0]), sx.A("val"), sx.A(d[1])))
+		}
+	}
+	vs := sx.L()
+	for _, kv := range vars {
+		vs.Add(sx.L(sx.A(kv[0]), sx.A(kv[1])))
+	}
+	q := sx.L(sx.A(s.comp), sx.I(s.rt), sx.A(s.role), sx.A(s.entry))
+	return fw.Case{Input: sx.L(sx.A("lookup"), q, ents, vs).String(), Tags: tags}
+}
+
+// exhaustiveLookups: every shape × every assignment {absent,val,dir} of the distinct candidate paths × content variants.
+func exhaustiveLookups() []fw.Case {
+	var cs []fw.Case
+	for si, s := range shapes {
+		cp := candPaths(s)
+		var distinct []string
+		for _, p := range cp {
+			seen := false
+			for _, d := range distinct {
+				if d == p {
+					seen = true
+				}
+			}
+			if !seen {
+				distinct = append(distinct, p)
+			}
+		}
+		n := 1
+		for range distinct {
+			n *= 3
+		}
+		for a := 0; a < n; a++ {
+			kinds := make([]int, len(distinct))
+			x := a
+			pat := 0
+			for i := range distinct {
+				kinds[i] = x % 3
+				x /= 3
+			}
+			for ci, p := range cp {
+				for i, d := range distinct {
+					if d == p && kinds[i] != 0 {
+						pat |= 1 << ci
+					}
+				}
+			}
+			for vi, content := range contentVariants {
+				hasDir := false
+				for _, k := range kinds {
+					if k == 2 {
+						hasDir = true
+					}
+				}
+				if vi > 0 && hasDir {
+					continue // dirs carry no content: one content variant is enough
+				}
+				tags := []string{"lookup", "lookup:exhaustive", fmt.Sprintf("lookup:pattern=%04b", pat), fmt.Sprintf("lookup:shape=%d", si)}
+				if hasDir {
+					tags = append(tags, "lookup:with-dir")
+				}
+				cs = append(cs, lookupCase(s, kinds, distinct, content, varVariants[0], tags))
+			}
+		}
+	}
+	return cs
+}
+
+var identStart = lower + upper + "_"
+
+func genContent(r *rng.R, names []string) string {
+	var b strings.Builder
+	n := r.Range(0, 6)
+	for i := 0; i < n; i++ {
+		if r.P(1, 2) {
+			// text: anything but the three opening digraphs {{ {% {#
+			alpha := []rune("ab {}\":,[]01<>&'%#-\n\té")
+			t := ""
+			for k := r.Range(0, 8); k > 0; k-- {
+				c := alpha[r.N(len(alpha))]
+				if strings.HasSuffix(t, "{") && (c == '{' || c == '%' || c == '#') {
+					continue
+				}
+				t += string(c)
+			}
+			if strings.HasSuffix(t, "{") {
+				t += " "
+			}
+			if strings.HasSuffix(b.String(), "{") && (strings.HasPrefix(t, "{") || strings.HasPrefix(t, "%") || strings.HasPrefix(t, "#")) {
+				t = " " + t
+			}
+			b.WriteString(t)
+		} else {
+			name := rng.Pick(r, names)
+			b.WriteString("{{" + randFrom(r, " \t", 0, 2) + name + randFrom(r, " \t\r", 0, 2) + "}}")
+		}
+	}
+	return b.String()
+}
+
+func genLookupCase(r *rng.R) fw.Case {
+	s := shape{genComponent(r), rng.Pick(r, runTypeNums), genRole(r), genEntry(r)}
+	cp := candPaths(s)
+	var distinct []string
+	for _, p := range cp {
+		seen := false
+		for _, d := range distinct {
+			if d == p {
+				seen = true
+			}
+		}
+		if !seen {
+			distinct = append(distinct, p)
+		}
+	}
+	kinds := make([]int, len(distinct))
+	for i := range kinds {
+		kinds[i] = rng.Pick(r, []int{0, 0, 1, 1, 1, 2})
+	}
+	names := []string{"a", "b1", "_x", "host", "Run_Type", "nothere", "x9_"}
+	content := genContent(r, names)
+	var vars [][2]string
+	tags := []string{"lookup", "lookup:random"}
+	used := map[string]bool{}
+	for _, n := range names[:6] {
+		if r.P(1, 2) {
+			k := n
+			if r.P(1, 8) {
+				k = " " + k + " " // keys are trimmed by the service
+				tags = append(tags, "lookup:padded-var-key")
+			}
+			if used[strings.TrimSpace(k)] {
+				continue
+			}
+			used[strings.TrimSpace(k)] = true
+			vars = append(vars, [2]string{k, randFrom(r, "ab <>&\"'{}1é", 0, 6)})
+		}
+	}
+	if r.P(1, 12) {
+		vars = append(vars, [2]string{rng.Pick(r, []string{"bad-key", "a.b", "", "x y", "é"}), "v"})
+		tags = append(tags, "lookup:invalid-var-key")
+	}
+	if strings.Contains(content, "{{") {
+		tags = append(tags, "lookup:templated")
+	}
+	return lookupCase(s, kinds, distinct, content, vars, tags)
+}
+
+func generate(tier string, r *rng.R) []fw.Case {
+	nParse, nLookup := 30000, 1500
+	if tier == "thorough" {
+		nParse, nLookup = 400000, 30000
+	}
+	cs := exhaustiveLookups()
+	for i := 0; i < nLookup; i++ {
+		cs = append(cs, genLookupCase(r.Fork()))
+	}
+	for i := 0; i < nParse; i++ {
+		cs = append(cs, genParseCase(r.Fork()))
+	}
+	return cs
+}
+
+func nontrivial(input, obs string) bool {
+	in, err := sx.Parse(input)
+	if err != nil {
+		return false
+	}
+	switch in.At(0).Str() {
+	case "parse":
+		// at least two '/' or one '=': the string could plausibly be a path or a parameter list
+		s := in.At(1).Str()
+		return strings.Count(s, "/") >= 2 || strings.Contains(s, "=")
+	case "lookup":
+		// at least one of the four candidates exists or the query needs a fallback decision (always true by construction)
+		return in.At(2).Len() >= 5
+	}
+	return false
+}
+
+func shrinkCands(input string) []string {
+	in, err := sx.Parse(input)
+	if err != nil {
+		return nil
+	}
+	var out []string
+	switch in.At(0).Str() {
+	case "parse":
+		rs := []rune(in.At(1).Str())
+		for i := range rs {
+			out = append(out, sx.L(sx.A("parse"), sx.A(string(rs[:i])+string(rs[i+1:]))).String())
+		}
+	case "lookup":
+		ents := in.At(2)
+		for i := range ents.List {
+			n := sx.L()
+			n.List = append(append([]*sx.Node{}, ents.List[:i]...), ents.List[i+1:]...)
+			out = append(out, sx.L(sx.A("lookup"), in.At(1), n, in.At(3)).String())
+		}
+		vars := in.At(3)
+		for i := range vars.List {
+			n := sx.L()
+			n.List = append(append([]*sx.Node{}, vars.List[:i]...), vars.List[i+1:]...)
+			out = append(out, sx.L(sx.A("lookup"), in.At(1), ents, n).String())
+		}
+	}
+	return out
+}
+
+func init() {
+	fw.Register(&fw.Property{
+		ID:         "C20",
+		Generate:   generate,
+		RunImpl:    runImpl,
+		Nontrivial: nontrivial,
+		Rule: "lookup: 8 query shapes (distinct / role already 'any' / run type already ANY / all coincide / NULL run type / trailing-slash, " +
+			"empty-segment and fallback-named entries) x EVERY assignment {absent,value,directory} of the distinct candidate entries (covers all 16 " +
+			"existence patterns; exhaustive) x 2 contents, plus random shapes/contents/variables, each through a fresh local.Service over a generated " +
+			"YAML file (real YamlSource wrapped in an Exists-recorder); parse: grammar-generated component/RUNTYPE/role/entry strings, entries " +
+			"paths and parameter lists, 12 mutation operators, random soup, surrounding Unicode blanks, through NewQuery/NewEntriesQuery/" +
+			"NewQueryParameters; non-trivial = lookup with >=5 tree entries, or parse string with >=2 '/' or a '='; distinct by input text",
+		Shrink:     shrinkCands,
+		Exhaustive: func(string) bool { return false },
+		Workers:    1,
+		TrustedBase: []string{
+			"harness/props/c20 (YAML tree builder, Exists recorder, error-class mapping)",
+			"Go regexp, strings.TrimSpace, net/url.ParseQuery, gopkg.in/yaml.v3, pongo2 lexer/parser (only the plain {{ name }} fragment is modelled)",
+			"/repo/apricot/local/verif_hook_c20.go (build tag verif): constructor for a Service over a given cfgbackend.Source",
+		},
+		Assumptions: []string{
+			"the payload clause is about a fresh Service: the per-base-path pongo2 template cache is not modelled (quantifier is over inputs and configurations, not histories)",
+			"variable keys are distinct after strings.TrimSpace (otherwise Go map iteration order decides which value wins)",
+			"strings are valid UTF-8",
+		},
+	})
+	fw.RegisterGen(fw.GenFile{Name: "QueryTables.lean", Make: genTables})
+}
+
+// ---- tabulation --------------------------------------------------------------------
+
+func leanChar(c rune) string {
+	if (c >= 'a' && c <= 'z') || (c >= 'A' && c <= 'Z') || (c >= '0' && c <= '9') || strings.ContainsRune("-_/=&,.:^$()[]{}+*?|\" ", c) {
+		return "'" + string(c) + "'"
+	}
+	return fmt.Sprintf("Char.ofNat %d", c)
+}
+
+func leanChars(s string) string {
+	var parts []string
+	for _, c := range s {
+		parts = append(parts, leanChar(c))
+	}
+	return "[" + strings.Join(parts, ", ") + "]"
+}
+
+// ranges of all Unicode scalar values satisfying pred, merged.
+func ranges(pred func(c rune) bool) string {
+	var parts []string
+	lo := rune(-1)
+	prev := rune(-1)
+	flush := func() {
+		if lo >= 0 {
+			parts = append(parts, fmt.Sprintf("(%d, %d)", lo, prev))
+		}
+	}
+	for c := rune(0); c <= 0x10FFFF; c++ {
+		if c >= 0xD800 && c <= 0xDFFF {
+			continue
+		}
+		if pred(c) {
+			if lo < 0 {
+				lo = c
+			} else if prev != c-1 {
+				flush()
+				lo = c
+			}
+			prev = c
+		} else if lo >= 0 {
+			flush()
+			lo = -1
+		}
+	}
+	flush()
+	return "[" + strings.Join(parts, ", ") + "]"
+}
+
+// regexSources extracts the literal arguments of regexp.MustCompile in query.go by go/ast.
+func regexSources(repo string) (map[string]string, error) {
+	fset := token.NewFileSet()
+	f, err := parser.ParseFile(fset, repo+"/configuration/componentcfg/query.go", nil, 0)
+	if err != nil {
+		return nil, err
+	}
+	out := map[string]string{}
+	ast.Inspect(f, func(n ast.Node) bool {
+		vs, ok := n.(*ast.ValueSpec)
+		if !ok || len(vs.Names) != 1 || len(vs.Values) != 1 {
+			return true
+		}
+		call, ok := vs.Values[0].(*ast.CallExpr)
+		if !ok || len(call.Args) != 1 {
+			return true
+		}
+		sel, ok := call.Fun.(*ast.SelectorExpr)
+		if !ok || sel.Sel.Name != "MustCompile" {
+			return true
+		}
+		lit, ok := call.Args[0].(*ast.BasicLit)
+		if !ok {
+			return true
+		}
+		s, err := strconv.Unquote(lit.Value)
+		if err == nil {
+			out[vs.Names[0].Name] = s
+		}
+		return true
+	})
+	return out, nil
+}
+
+func genTables(repo string) (string, error) {
+	var b strings.Builder
+	b.WriteString("namespace Gen.C20\n\n")
+
+	// 1. regular expression sources (go/ast)
+	srcs, err := regexSources(repo)
+	if err != nil {
+		return "", err
+	}
+	for _, name := range []string{"inputFullRegex", "inputEntriesRegex", "inputParametersRegex"} {
+		s, ok := srcs[name]
+		if !ok {
+			return "", fmt.Errorf("regexp %s not found in query.go", name)
+		}
+		fmt.Fprintf(&b, "/-- literal argument of regexp.MustCompile for `%s` (go/ast). -/\ndef %sSrc : List Char := %s\n\n", name, name, leanChars(s))
+	}
+
+	// 2. character classes by evaluating the linked recognisers on every Unicode scalar value at each position
+	v := componentcfg.IsStringValidQueryPath
+	e := componentcfg.IsStringValidEntriesQueryPath
+	p := componentcfg.IsStringValidQueryParameters
+	classes := []struct {
+		name, doc string
+		pred      func(c rune) bool
+	}{
+		{"fullComponentClass", "c such that IsStringValidQueryPath(c + \"/A/a/a\")", func(c rune) bool { return v(string(c) + "/A/a/a") }},
+		{"fullRunTypeClass", "c such that IsStringValidQueryPath(\"a/\" + c + \"/a/a\")", func(c rune) bool { return v("a/" + string(c) + "/a/a") }},
+		{"fullRoleClass", "c such that IsStringValidQueryPath(\"a/A/\" + c + \"/a\")", func(c rune) bool { return v("a/A/" + string(c) + "/a") }},
+		{"fullEntryClass", "c such that IsStringValidQueryPath(\"a/A/a/a\" + c)", func(c rune) bool { return v("a/A/a/a" + string(c)) }},
+		{"entriesComponentClass", "c such that IsStringValidEntriesQueryPath(c + \"/A/a\")", func(c rune) bool { return e(string(c) + "/A/a") }},
+		{"entriesRunTypeClass", "…(\"a/\" + c + \"/a\")", func(c rune) bool { return e("a/" + string(c) + "/a") }},
+		{"entriesRoleClass", "…(\"a/A/\" + c)", func(c rune) bool { return e("a/A/" + string(c)) }},
+		{"paramKeyClass", "c such that IsStringValidQueryParameters(c + \"=a\")", func(c rune) bool { return p(string(c) + "=a") }},
+		{"paramValueClass", "c such that IsStringValidQueryParameters(\"a=\" + c)", func(c rune) bool { return p("a=" + string(c)) }},
+		{"paramKey2Class", "c such that IsStringValidQueryParameters(\"a=a&\" + c + \"=a\")", func(c rune) bool { return p("a=a&" + string(c) + "=a") }},
+		{"paramValue2Class", "c such that IsStringValidQueryParameters(\"a=a&a=\" + c)", func(c rune) bool { return p("a=a&a=" + string(c)) }},
+		{"spaceClass", "c trimmed by NewQuery: NewQuery(c + \"a/ANY/a/a\") succeeds although the regexp rejects the untrimmed string", func(c rune) bool {
+			s := string(c) + "a/ANY/a/a"
+			_, err := componentcfg.NewQuery(s)
+			return err == nil && !v(s)
+		}},
+	}
+	for _, c := range classes {
+		fmt.Fprintf(&b, "/-- %s — all Unicode scalar values, as merged inclusive ranges. -/\ndef %s : List (Nat × Nat) := %s\n\n", c.doc, c.name, ranges(c.pred))
+	}
+
+	// 3. run types and constants
+	b.WriteString("/-- apricotpb.RunType_name, sorted by number. -/\ndef runTypeName : List (Nat × List Char) := [\n")
+	for i, n := range runTypeNums {
+		sep := ","
+		if i == len(runTypeNums)-1 {
+			sep = ""
+		}
+		fmt.Fprintf(&b, "  (%d, %s)%s\n", n, leanChars(apricotpb.RunType_name[int32(n)]), sep)
+	}
+	b.WriteString("]\n\n/-- apricotpb.RunType_value, sorted by number then name. -/\ndef runTypeValue : List (List Char × Nat) := [\n")
+	type nv struct {
+		n string
+		v int
+	}
+	var nvs []nv
+	for n, val := range apricotpb.RunType_value {
+		nvs = append(nvs, nv{n, int(val)})
+	}
+	sort.Slice(nvs, func(i, j int) bool {
+		if nvs[i].v != nvs[j].v {
+			return nvs[i].v < nvs[j].v
+		}
+		return nvs[i].n < nvs[j].n
+	})
+	for i, x := range nvs {
+		sep := ","
+		if i == len(nvs)-1 {
+			sep = ""
+		}
+		fmt.Fprintf(&b, "  (%s, %d)%s\n", leanChars(x.n), x.v, sep)
+	}
+	b.WriteString("]\n\n")
+	fmt.Fprintf(&b, "def fallbackRunType : Nat := %d\n", int(componentcfg.FALLBACK_RUNTYPE))
+	fmt.Fprintf(&b, "def fallbackRoleName : List Char := %s\n", leanChars(componentcfg.FALLBACK_ROLENAME))
+	fmt.Fprintf(&b, "def configComponentsPath : List Char := %s\n", leanChars(componentcfg.ConfigComponentsPath))
+	fmt.Fprintf(&b, "def separator : List Char := %s\n\n", leanChars(componentcfg.SEPARATOR))
+
+	// 4. the fallback: probes and result of the linked resolveComponentQuery for all 16 existence patterns
+	q := &componentcfg.Query{Component: "cmp", RunType: apricotpb.RunType_PHYSICS, RoleName: "role1", EntryKey: "ent"}
+	cands := []string{
+		"o2/components/cmp/PHYSICS/role1/ent", "o2/components/cmp/ANY/role1/ent",
+		"o2/components/cmp/PHYSICS/any/ent", "o2/components/cmp/ANY/any/ent",
+	}
+	idx := func(key string) int {
+		for i, c := range cands {
+			if c == key {
+				return i
+			}
+		}
+		return 99
+	}
+	b.WriteString("/-- For each existence pattern (bit i = candidate i exists; candidates numbered 0 exact, 1 ANY/role, 2 runtype/any,\n    3 ANY/any): the sequence of candidates the linked resolveComponentQuery probed with Exists, and the candidate it\n    returned (none = error). Recorded by running local.Service.ResolveComponentQuery on a recording backend. -/\ndef resolveTable : List (List Nat × Option Nat) := [\n")
+	for pat := 0; pat < 16; pat++ {
+		rec := &recorder{answer: func(key string) bool {
+			i := idx(key)
+			return i < 4 && pat&(1<<i) != 0
+		}}
+		svc := local.VerifC20NewServiceWithSource(rec)
+		res, err := svc.ResolveComponentQuery(q)
+		var ps []string
+		for _, k := range rec.probes {
+			ps = append(ps, strconv.Itoa(idx(k)))
+		}
+		r := "none"
+		if err == nil {
+			r = fmt.Sprintf("some %d", idx(res.AbsoluteRaw()))
+		}
+		sep := ","
+		if pat == 15 {
+			sep = ""
+		}
+		fmt.Fprintf(&b, "  ([%s], %s)%s\n", strings.Join(ps, ", "), r, sep)
+	}
+	b.WriteString("]\n\n")
+
+	// 5. names bound by the service besides the supplied variables
+	var fn []string
+	for k := range template.MakeUtilFuncMap(map[string]string{}) {
+		fn = append(fn, k)
+	}
+	sort.Strings(fn)
+	b.WriteString("/-- keys of template.MakeUtilFuncMap: bound in every template execution on top of the supplied variables. -/\ndef utilFuncNames : List (List Char) := [\n")
+	for i, k := range fn {
+		sep := ","
+		if i == len(fn)-1 {
+			sep = ""
+		}
+		fmt.Fprintf(&b, "  %s%s\n", leanChars(k), sep)
+	}
+	b.WriteString("]\n\nend Gen.C20\n")
+	return b.String(), nil
+}
